@@ -4,7 +4,7 @@ from ..core import Case, TU, chunk, Cfg, std_configs
 
 ID = 'C16'
 TYPES = [('float', 'f32'), ('double', 'f64'), ('int', 'i32'), ('long', 'i64')]
-RULE = ('cases: (a) sum/product/min/max/norm/inner on tensors, on lazy expressions (x*1, -(-x): element-preserving) and as member functions, for rank-1 sizes 1..35 plus sizes 63..273 that take every rung of the unrolled 8V/4V/2V/V reduction ladders on every ABI (every residue of every '
+RULE = ('cases: (a) sum/product/min/max/norm/inner on tensors, on lazy expressions (x*1, -(-x): element-preserving), on expressions that need evaluation first (trans(Xt), x%I, element-wise nodes around them; also trace and isequal) and as member functions, for rank-1 sizes 1..35 plus sizes 63..273 that take every rung of the unrolled 8V/4V/2V/V reduction ladders on every ABI (every residue of every '
         'vector width; rotating sample in the quick tier) and rank-2/3 shapes, under six sign patterns (all positive, all negative, mixed, ONE extreme element at EVERY position (runtime loop, both '
         'signs), all equal, containing +-0) in an exact small-integer regime and a generic-real regime; min/max must equal the model and be an element of the input; sums within n*u*sum|x|; '
         '(b) all_of/any_of/none_of over EVERY boolean pattern for n<=12 on Tensor<bool> and on boolean expressions, incl. none_of == !any_of; random patterns for larger n; (c) isequal / '
@@ -31,6 +31,9 @@ def generate(seed, tier):
             add('C16|red|%s|%d' % (tk, n), 'static void @FN@(vp::Ctx& c) { vp::c16::RED<%s,%d>::run(c); }\nVP_CASE("@KEY@", @FN@);' % (tn, n))
         for shp in ([(3, 5), (2, 3, 4)] if quick else [(3, 5), (2, 3, 4), (4, 4), (7, 9), (2, 2, 2, 3)]):
             add('C16|red|%s|%s' % (tk, 'x'.join(map(str, shp))), 'static void @FN@(vp::Ctx& c) { vp::c16::RED<%s,%s>::run(c); }\nVP_CASE("@KEY@", @FN@);' % (tn, ','.join(map(str, shp))))
+        # arguments that need evaluation first (lazy transpose / matrix product / element-wise node around one): separate overloads of every reduction
+        for (m, n) in ([(3, 5), (4, 4), (2, 9)] if quick else [(1, 1), (2, 2), (3, 5), (4, 4), (2, 9), (7, 3), (8, 8), (5, 16), (9, 9)]):
+            add('C16|red-eval|%s|%dx%d' % (tk, m, n), 'static void @FN@(vp::Ctx& c) { vp::c16::RED2<%s,%d,%d>::run(c); }\nVP_CASE("@KEY@", @FN@);' % (tn, m, n))
         for n in ([1, 5, 12, 33] if quick else [1, 2, 3, 4, 5, 7, 8, 9, 12, 16, 17, 33, 64]):
             add('C16|predicates|%s|%d' % (tk, n), 'VP_CASE("@KEY@", vp::c16::predicates<%s,%d>);' % (tn, n))
         for n in ([1, 3, 8] if quick else [1, 2, 3, 4, 5, 8, 9]):
